@@ -8,10 +8,10 @@
                 selector is of CallArgs.bsel (a string literal, a number literal, a variable reference, a function
                 reference with call arguments, a term attribute with or without call arguments), with
                 exactly one default variant, well-formed keys, and variant values that are patterns of
-                RoundTripML.ml_pattern with placeables of depth d.
+                RoundTripML.wl_pattern with placeables of depth d.
    (eoks / etexts: the depth-0 class without call arguments, kept for SerializerML.v.)
      1. the classes and their layouts (etextd d)
-     2. get_placeable on a layout (by induction on the depth, with RoundTripML.get_pattern_ml for the variants)
+     2. get_placeable on a layout (by induction on the depth, with RoundTripML.get_pattern_wl for the variants)
      3. render prints a layout; the expressions are well-formed and in joined form
      4. parse (render cs t)                                                                          *)
 From FluentV Require Import Base.Bytes Base.Outcome Base.Utf8 Base.Utf8Facts.
@@ -131,7 +131,7 @@ Inductive select_layout (vl : list pattern_element -> bytes -> Prop) : expressio
     select_layout vl (Select sel vs) (Xs ++ b1' ++ [45; 62]%N ++ sp j ++ x0 ++ W0 ++ VS).
 
 Definition variant_ok (eok : expression -> bool) (v : variant) : bool :=
-  match v with Variant k p _ => key_ok k && ml_pattern eok p end.
+  match v with Variant k p _ => key_ok k && wl_pattern eok p end.
 
 Fixpoint eokd (d : nat) (e : expression) : bool :=
   match d with
@@ -151,7 +151,7 @@ Fixpoint etextd (d : nat) : expression -> bytes -> Prop :=
       etext0 e X \/
       (exists e1 b1 b2 X1, e = Inline (Placeable e1) /\ all_blank b1 /\ all_blank b2 /\ etextd d' e1 X1 /\
                            X = 123%N :: b1 ++ X1 ++ b2 ++ [125%N]) \/
-      select_layout (ml_value_layout (etextd d')) e X
+      select_layout (wl_value_layout (etextd d')) e X
   end.
 
 (* ---------------------------------------------------------------------------------------------- *)
@@ -162,9 +162,9 @@ Variable eok : expression -> bool.
 Variable etext : expression -> bytes -> Prop.
 Variable egood : expression -> Prop.
 Variable bs : bytes.
-(* get_pattern on the variant values (RoundTripML.get_pattern_ml at the depth below) *)
+(* get_pattern on the variant values (RoundTripML.get_pattern_wl at the depth below) *)
 Hypothesis Hpat : forall els V T used c nx p n,
-  ml_pattern eok (Pattern els) = true -> ml_value_layout etext els V -> after_value T used c nx -> at_ bs p (V ++ T) ->
+  wl_pattern eok (Pattern els) = true -> wl_value_layout etext els V -> after_value T used c nx -> at_ bs p (V ++ T) ->
   3 * length (V ++ T) + 12 <= n ->
   exists els', get_pattern bs n p = Ok (Some (Pattern els')) (used + (length V + p)) /\ srel egood els' els.
 
@@ -240,7 +240,7 @@ Proof.
   - apply vsl_cons; try assumption. apply IH; [discriminate | exact Htail].
 Qed.
 
-Lemma variants_loop_ok vs VS : variants_layout (ml_value_layout etext) vs VS -> forallb (variant_ok eok) vs = true ->
+Lemma variants_loop_ok vs VS : variants_layout (wl_value_layout etext) vs VS -> forallb (variant_ok eok) vs = true ->
   forall rest acc (hd : bool) p n,
   count_defaults vs + (if hd then 1 else 0) = 1 ->
   at_ bs p (VS ++ 125%N :: rest) -> 3 * length (VS ++ 125%N :: rest) + 13 <= n ->
@@ -498,7 +498,7 @@ Proof. reflexivity. Qed.
 (* ---- a placeable with a select expression, from behind its "{" ---- *)
 Lemma get_expression_select sel vs X b2 rest p n :
   bsel sel = true -> count_defaults vs = 1 -> forallb (variant_ok eok) vs = true ->
-  select_layout (ml_value_layout etext) (Select sel vs) X -> all_blank b2 ->
+  select_layout (wl_value_layout etext) (Select sel vs) X -> all_blank b2 ->
   at_ bs p (X ++ b2 ++ 125%N :: rest) -> 3 * length (X ++ b2 ++ 125%N :: rest) + 7 <= n ->
   exists vs', get_expression bs n p = Ok (Select sel vs') (length (X ++ b2) + p) /\ Forall2 vrel vs' vs.
 Proof.
@@ -561,7 +561,7 @@ Qed.
 
 Lemma get_placeable_select sel vs X b1 b2 rest p n :
   bsel sel = true -> count_defaults vs = 1 -> forallb (variant_ok eok) vs = true ->
-  select_layout (ml_value_layout etext) (Select sel vs) X -> all_blank b1 -> all_blank b2 ->
+  select_layout (wl_value_layout etext) (Select sel vs) X -> all_blank b1 -> all_blank b2 ->
   at_ bs p (b1 ++ X ++ b2 ++ 125%N :: rest) -> 3 * length (b1 ++ X ++ b2 ++ 125%N :: rest) + 8 <= n ->
   exists vs', get_placeable bs n p = Ok (Select sel vs') (S (length (b1 ++ X ++ b2) + p)) /\ Forall2 vrel vs' vs.
 Proof.
@@ -648,13 +648,13 @@ Section SelRender.
 Variable eok : expression -> bool.
 Variable etext : expression -> bytes -> Prop.
 (* render on the variant values (RoundTripML.render_els_ml_layout at the depth below) *)
-Hypothesis HrenderV : forall base els cs, ml_pattern eok (Pattern els) = true ->
-  exists L cs', render_pattern_inline base (Pattern els) cs = (L, cs') /\ ml_line_layout etext base els L.
+Hypothesis HrenderV : forall ind els cs, wl_pattern eok (Pattern els) = true -> 1 <= ind ->
+  exists V cs', render_value ind (Pattern els) cs = (V, cs') /\ wl_value_layout etext els V.
 
 Lemma render_variant_layout ind v cs : variant_ok eok v = true ->
   exists pre k body x cs', render_variant ind v cs = (pre ++ sp (ind + k) ++ body ++ x, cs') /\ all_blank pre /\ is_eol_bytes x /\
-    forall r W VS, all_blank W -> variants_layout (ml_value_layout etext) r VS ->
-                   variants_layout (ml_value_layout etext) (v :: r) (body ++ x ++ W ++ VS).
+    forall r W VS, all_blank W -> variants_layout (wl_value_layout etext) r VS ->
+                   variants_layout (wl_value_layout etext) (v :: r) (body ++ x ++ W ++ VS).
 Proof.
   destruct v as [key [els] dflt]. unfold variant_ok. intros H. apply andb_prop in H as [Hk Hp].
   cbn [render_variant].
@@ -667,19 +667,19 @@ Proof.
   destruct Hpre as (pre & cs2 & Epre & Hpre). rewrite (rbind_eq _ _ _ _ _ Epre).
   destruct (blank_opt_spec cs2) as [b1 [cs3 [E3 Hb1]]]. rewrite (rbind_eq _ _ _ _ _ E3).
   destruct (blank_opt_spec cs3) as [b2 [cs4 [E4 Hb2]]]. rewrite (rbind_eq _ _ _ _ _ E4).
-  destruct (blank_inline_opt_spec cs4) as [j [cs5 E5]]. rewrite (rbind_eq _ _ _ _ _ E5).
-  unfold rbind at 1. destruct (choose 3 cs5) as [extra cs6].
-  destruct (HrenderV (ind + 4 + extra) els cs6 Hp) as (L & cs7 & E7 & HL). rewrite (rbind_eq _ _ _ _ _ E7).
+  change (render_value_with (fun base => render_pattern_inline base (Pattern els)) (first_byte_ok_for_block (Pattern els))
+            (needs_block (Pattern els)) (ind + 4)) with (render_value (ind + 4) (Pattern els)).
+  destruct (HrenderV (ind + 4) els cs4 Hp ltac:(lia)) as (V & cs7 & E7 & HV). rewrite (rbind_eq _ _ _ _ _ E7).
   destruct (eol_spec' cs7) as [x [cs8 [E8 Hx]]]. rewrite (rbind_eq _ _ _ _ _ E8).
-  exists pre, k, ((if dflt then [42%N] else []) ++ 91%N :: b1 ++ render_key key ++ b2 ++ 93%N :: sp j ++ L), x, cs8.
+  exists pre, k, ((if dflt then [42%N] else []) ++ 91%N :: b1 ++ render_key key ++ b2 ++ 93%N :: V), x, cs8.
   split; [|split; [exact Hpre | split; [exact Hx|]]].
   - unfold rret, cat. cbn [concat]. rewrite app_nil_r. f_equal. f_equal. f_equal.
     destruct dflt; cbn [app]; repeat (rewrite <- app_assoc; cbn [app]); reflexivity.
   - intros r W VS HW Hr.
-    replace (((if dflt then [42%N] else []) ++ 91%N :: b1 ++ render_key key ++ b2 ++ 93%N :: sp j ++ L) ++ x ++ W ++ VS)
-      with ((if dflt then [42%N] else []) ++ 91%N :: b1 ++ render_key key ++ b2 ++ 93%N :: (sp j ++ L) ++ x ++ W ++ VS)
+    replace (((if dflt then [42%N] else []) ++ 91%N :: b1 ++ render_key key ++ b2 ++ 93%N :: V) ++ x ++ W ++ VS)
+      with ((if dflt then [42%N] else []) ++ 91%N :: b1 ++ render_key key ++ b2 ++ 93%N :: V ++ x ++ W ++ VS)
       by (destruct dflt; cbn [app]; repeat (rewrite <- app_assoc; cbn [app]); reflexivity).
-    apply vsl_cons; try assumption. apply (mvl_inline etext els j (ind + 4 + extra) L); [lia | exact HL].
+    apply vsl_cons; assumption.
 Qed.
 
 (* the variants; the blank in front of each belongs to the variant before it, the one in front of the first
@@ -687,7 +687,7 @@ Qed.
 Lemma render_variants_layout ind vs : forall cs, forallb (variant_ok eok) vs = true -> vs <> [] ->
   exists out cs', render_variants ind vs cs = (out, cs') /\
     forall Wend, all_blank Wend -> exists W0 VS, out ++ Wend = W0 ++ VS /\ all_blank W0 /\
-                                                 variants_layout (ml_value_layout etext) vs VS.
+                                                 variants_layout (wl_value_layout etext) vs VS.
 Proof.
   induction vs as [|v r IH]; intros cs Hok Hne; [congruence|].
   cbn [forallb] in Hok. apply andb_prop in Hok as [Hv Hr].
@@ -708,7 +708,7 @@ Qed.
 
 Lemma render_select_layout ind sel vs cs :
   bsel sel = true -> forallb (variant_ok eok) vs = true -> vs <> [] ->
-  exists X cs', render_expr ind (Select sel vs) cs = (X, cs') /\ select_layout (ml_value_layout etext) (Select sel vs) X.
+  exists X cs', render_expr ind (Select sel vs) cs = (X, cs') /\ select_layout (wl_value_layout etext) (Select sel vs) X.
 Proof.
   intros Hsel Hvs Hne. rewrite render_expr_select.
   destruct (render_bsel sel cs Hsel) as (Xs & cs0 & E0 & HXs). rewrite (rbind_eq _ _ _ _ _ E0).
@@ -825,7 +825,7 @@ Proof.
   cbn [forallb] in Hok. apply andb_prop in Hok as [Hv1 Hl1]. cbn [map]. rewrite (IH Hl1). f_equal.
   destruct v' as [k' [els'] d'], v as [k [els] d0]. cbn [vrel] in Hv. destruct Hv as (-> & -> & Hs & _).
   unfold variant_ok in Hv1. apply andb_prop in Hv1 as [_ Hp].
-  cbn [join_variant]. unfold jrel in Hs. rewrite Hs, (ml_pattern_join eok Hj _ Hp). reflexivity.
+  cbn [join_variant]. unfold jrel in Hs. rewrite Hs, (wl_pattern_join eok Hj _ Hp). reflexivity.
 Qed.
 
 Lemma variants_join eok vs : (forall e, eok e = true -> join_expr e = e) ->
@@ -834,7 +834,7 @@ Proof.
   intros Hj Hok. induction vs as [|v r IH]; [reflexivity|].
   cbn [forallb] in Hok. apply andb_prop in Hok as [Hv Hr]. cbn [map]. rewrite (IH Hr). f_equal.
   destruct v as [k p d0]. unfold variant_ok in Hv. apply andb_prop in Hv as [_ Hp].
-  cbn [join_variant]. rewrite (ml_pattern_join eok Hj _ Hp). reflexivity.
+  cbn [join_variant]. rewrite (wl_pattern_join eok Hj _ Hp). reflexivity.
 Qed.
 
 Lemma sel_ok_simple sel : sel_ok sel = true -> simple_inline sel = true.
@@ -842,19 +842,19 @@ Proof. destruct sel; try discriminate; exact (fun H => H). Qed.
 
 Lemma wf_select sel vs :
   bsel sel = true -> count_defaults vs = 1 ->
-  Forall (fun v => match v with Variant k p _ => key_ok k = true /\ wf_value p = true end) vs ->
+  Forall (fun v => match v with Variant k p _ => key_ok k = true /\ wf_pattern p && lines_ok_pattern p = true end) vs ->
   wf_expr (Select sel vs) = true /\ lines_ok_expr (Select sel vs) = true.
 Proof.
   intros Hsel Hcnt Hvs. destruct (wf_bsel sel Hsel) as (W1' & W2 & Wk).
   cbn [wf_expr lines_ok_expr]. rewrite W1', W2, Hcnt, Wk. cbn [Nat.eqb andb].
   cbn [andb]. clear Hcnt. split.
   - induction Hvs as [|v r Hv Hr IH]; [reflexivity|]. destruct v as [k p d0]. destruct Hv as [Hk Hp].
-    unfold wf_value in Hp. apply andb_prop in Hp as [Hp _]. cbn [wf_variant]. 
+    apply andb_prop in Hp as [Hp _]. cbn [wf_variant]. 
     replace (match k with KeyIdentifier n => wf_identifier n | KeyNumber n => wf_number n end) with true
       by (destruct k; symmetry; exact Hk).
     rewrite Hp. cbn [andb]. exact IH.
   - induction Hvs as [|v r Hv Hr IH]; [reflexivity|]. destruct v as [k p d0]. destruct Hv as [Hk Hp].
-    unfold wf_value in Hp. apply andb_prop in Hp as [_ Hp]. rewrite Hp. cbn [andb]. exact IH.
+    apply andb_prop in Hp as [_ Hp]. rewrite Hp. cbn [andb]. exact IH.
 Qed.
 
 (* ---- the step ---- *)
@@ -879,17 +879,17 @@ Proof.
     + intros e. apply wf_fact0.
     + intros bs e X b1 b2 rest p n. apply place_fact0.
   - (* the patterns of the variants, at depth d *)
-    assert (HrenderV : forall base els cs, ml_pattern (eokd d) (Pattern els) = true ->
-              exists L cs', render_pattern_inline base (Pattern els) cs = (L, cs') /\ ml_line_layout (etextd d) base els L).
-    { intros base els cs Hp. destruct (ml_pattern_parts _ els Hp) as (_ & Hs & _).
-      apply (render_els_ml_layout (eokd d) (etextd d) R base els false cs Hs). }
-    assert (Hwfp : forall els, ml_pattern (eokd d) (Pattern els) = true -> wf_value (Pattern els) = true).
-    { intros els Hp. apply (ml_pattern_wf (eokd d) (etextd d) (goodd d)); assumption. }
+    assert (HrenderV : forall ind els cs, wl_pattern (eokd d) (Pattern els) = true -> 1 <= ind ->
+              exists V cs', render_value ind (Pattern els) cs = (V, cs') /\ wl_value_layout (etextd d) els V).
+    { intros ind els cs Hp Hind. apply (render_value_wl_layout (eokd d) (etextd d) (goodd d) R P ind els cs Hp Hind). }
+    assert (Hwfp : forall els, wl_pattern (eokd d) (Pattern els) = true ->
+              wf_pattern (Pattern els) && lines_ok_pattern (Pattern els) = true).
+    { intros els Hp. apply (wl_pattern_wf (eokd d) (etextd d) (goodd d)); assumption. }
     assert (Hpat : forall bs els V T used c nx p n,
-              ml_pattern (eokd d) (Pattern els) = true -> ml_value_layout (etextd d) els V -> after_value T used c nx ->
+              wl_pattern (eokd d) (Pattern els) = true -> wl_value_layout (etextd d) els V -> after_value T used c nx ->
               at_ bs p (V ++ T) -> 3 * length (V ++ T) + 12 <= n ->
               exists els', get_pattern bs n p = Ok (Some (Pattern els')) (used + (length V + p)) /\ srel (goodd d) els' els).
-    { intros bs els V T used c nx p n. apply (get_pattern_ml (eokd d) (etextd d) (goodd d)); assumption. }
+    { intros bs els V T used c nx p n. apply (get_pattern_wl (eokd d) (etextd d) (goodd d)); assumption. }
     split; [|split; [|split]].
     + (* render *)
       intros base e cs He. destruct (eokd_S_cases d e He) as [(i & -> & Hi) | [(e1 & -> & He1) | (sel & vs & -> & Hsel & Hcnt & Hvs)]].
@@ -944,7 +944,7 @@ Proof.
         -- apply (get_placeable_nested (eokd d) (etextd d) (goodd d) bs (Hpat bs) e1' c1 X1 c2 b1 b2 rest p n Hb1 Hb2 H E1).
         -- change (join_expr (Inline (Placeable e1'))) with (Inline (Placeable (join_expr e1'))). rewrite Ej. reflexivity.
         -- exact Hg.
-      * assert (HXs : select_layout (ml_value_layout (etextd d)) (Select sel vs) X).
+      * assert (HXs : select_layout (wl_value_layout (etextd d)) (Select sel vs) X).
         { destruct HX as [HX | [(e1' & c1 & c2 & X1 & E & _) | HX]]; [inversion HX | discriminate E | exact HX]. }
         destruct (get_placeable_select (eokd d) (etextd d) (goodd d) bs (Hpat bs) sel vs X b1 b2 rest p n Hsel Hcnt Hvs HXs Hb1 Hb2 H Hn)
           as (vs' & E & Hrels).
@@ -959,7 +959,7 @@ Qed.
 
 (* the resources whose placeables have nesting depth at most d (depth 0: RoundTripML's multi-line fragment
    with simple placeables) *)
-Definition sel_pattern (d : nat) (p : pattern) : bool := ml_pattern (eokd d) p.
+Definition sel_pattern (d : nat) (p : pattern) : bool := wl_pattern (eokd d) p.
 Definition sel_resource (d : nat) (t : resource) : bool := ml_resource (eokd d) t.
 
 Theorem parse_render_sel_split d cs t : sel_resource d t = true -> last_comment_ok t = true ->
@@ -997,6 +997,14 @@ Proof.
   rewrite H1, (ml_elements_mono eok1 eok2 els Hm false H2), H3, H4, H5. reflexivity.
 Qed.
 
+Lemma wl_pattern_mono (eok1 eok2 : expression -> bool) p : (forall e, eok1 e = true -> eok2 e = true) ->
+  wl_pattern eok1 p = true -> wl_pattern eok2 p = true.
+Proof.
+  intros Hm. destruct p as [els]. unfold wl_pattern. intros H.
+  apply andb_prop in H as [H H5]. apply andb_prop in H as [H H4]. apply andb_prop in H as [H H3]. apply andb_prop in H as [H1 H2].
+  rewrite H1, (ml_elements_mono eok1 eok2 els Hm false H2), H3, H4, H5. reflexivity.
+Qed.
+
 Lemma eokd_mono d : forall e, eokd d e = true -> eokd (S d) e = true.
 Proof.
   induction d as [|d IH]; intros e He.
@@ -1009,13 +1017,13 @@ Proof.
         (bsel sel && Nat.eqb (count_defaults vs) 1 && forallb (variant_ok (eokd (S d))) vs).
       rewrite Hsel, Hcnt. cbn [Nat.eqb andb]. rewrite forallb_forall in *. intros v Hv. specialize (Hvs v Hv).
       destruct v as [k p d0]. unfold variant_ok in *. apply andb_prop in Hvs as [Hk Hp].
-      rewrite Hk, (ml_pattern_mono (eokd d) (eokd (S d)) p IH Hp). reflexivity.
+      rewrite Hk, (wl_pattern_mono (eokd d) (eokd (S d)) p IH Hp). reflexivity.
 Qed.
 
 Theorem sel_resource_mono d t : sel_resource d t = true -> sel_resource (S d) t = true.
 Proof.
   unfold sel_resource. rewrite <- !ml_resource_g. apply g_resource_mono. intros els.
-  unfold ml_pok. apply ml_pattern_mono, eokd_mono.
+  unfold ml_pok. apply wl_pattern_mono, eokd_mono.
 Qed.
 
 (* ---------------------------------------------------------------------------------------------- *)
@@ -1088,12 +1096,12 @@ Theorem simple_resource_ml t : simple_resource t = true -> ml_resource eok t = t
 Proof.
   assert (Ha : forall attrs, forallb simple_attribute attrs = true -> forallb (ml_attribute eok) attrs = true).
   { intros attrs. rewrite !forallb_forall. intros H a Hin. specialize (H a Hin). unfold simple_attribute in H.
-    apply andb_prop in H as [Hid Hp]. unfold ml_attribute. rewrite Hid, (simple_pattern_ml _ Hp). reflexivity. }
+    apply andb_prop in H as [Hid Hp]. unfold ml_attribute. rewrite Hid, (ml_wl_pattern _ _ (simple_pattern_ml _ Hp)). reflexivity. }
   assert (Hpe : forall e, plain_entry e = true -> ml_plain_entry eok e = true).
   { intros e. destruct e as [id [p|] attrs [|]|id p attrs [|]|c|c|c|]; try discriminate; cbn [plain_entry ml_plain_entry];
       intros H; try (apply simple_wide_comment; exact H).
     all: apply andb_prop in H as [H Hattrs]; apply andb_prop in H as [Hid Hp];
-      rewrite Hid, (Ha attrs Hattrs), ?(simple_pattern_ml _ Hp), ?Hp; reflexivity. }
+      rewrite Hid, (Ha attrs Hattrs), ?(ml_wl_pattern _ _ (simple_pattern_ml _ Hp)), ?Hp; reflexivity. }
   unfold simple_resource, ml_resource. rewrite !forallb_forall. intros H e Hin. specialize (H e Hin).
   unfold simple_entry in H. apply andb_prop in H as [H1 H2]. unfold ml_entry. rewrite (Hpe _ H1). cbn [andb].
   destruct (entry_comment e); [apply simple_wide_comment, H2 | reflexivity].
